@@ -23,6 +23,17 @@ def make(base_kind, alpha):
     return MultiValueTracker(base), (WelfordTracker if base_kind == "welford" else (lambda: ExponentialSmoothingTracker(alpha)))
 
 
+def near_one_fails():
+    """the normalised view divides by the sum whenever it is not zero — also when the sum is within 1e-12 of one"""
+    from ixai.utils.tracker import MultiValueTracker, ExponentialSmoothingTracker
+    mv = MultiValueTracker(ExponentialSmoothingTracker(Q(1)))
+    mv.update({"a": Q(1, 2), "b": Q(1, 2) + Q(1, 10 ** 12)})
+    norm = mv.get_normalized()
+    if sum(norm.values(), Q(0)) != 1:
+        return f"values {mv.get()} (sum 1 + 1e-12): normalised view sums to {sum(norm.values(), Q(0))}"
+    return None
+
+
 def gen_history(rng, keys, n):
     hist = []
     pool = list(keys)
@@ -219,6 +230,9 @@ def run(tier="quick", seed=0, replay=None):
                 chk.tie_failure("correspondence:MultiValueTracker", f"{desc}: impl={str(core.jnorm(steps))[:400]} model={str(model)[:400]}")
     else:
         chk.tie_failure("driver", "model driver not built")
+    f = near_one_fails()
+    if f:
+        chk.violation("near-one-sum", f"MultiValueTracker: {f}", {"near_one": True})
     chk.case({"mutable_base_trackers": ["SlidingWindowTracker(2)", "SlidingWindowTracker(3)", "list-based"]}, nontrivial=True, sample=False)
     try:
         f = mutable_base_fails(chk.rng)
